@@ -4,7 +4,7 @@ From SV Require Import Lib.Base Gen.Consts.
 From SV Require Import Model.Seq32 Model.Assembler Model.TcpBuf Model.TcpTypes Model.Tcp Model.TcpNet.
 From SV Require Import Proofs.TcpSendBase Proofs.TcpLiveBase Proofs.TcpLiveProofs Proofs.TcpLiveMore Proofs.TcpLiveProgress.
 From SV Require Import Proofs.TcpNetBase.
-From SV Require Import Proofs.TcpProgressBase Proofs.TcpProgressExample Proofs.TcpProgressWitness Proofs.TcpProgressZwDup.
+From SV Require Import Proofs.TcpProgressBase Proofs.TcpProgressFrame Proofs.TcpProgressCtl Proofs.TcpProgressRecv Proofs.TcpProgressSend Proofs.TcpProgressNet Proofs.TcpProgressData Proofs.TcpProgressAck Proofs.TcpProgressAll Proofs.TcpProgressSafe Proofs.TcpProgressZwp Proofs.TcpProgressExample Proofs.TcpProgressWitness Proofs.TcpProgressSafeWitness Proofs.TcpProgressZwDup Proofs.TcpProgressZw1 Proofs.TcpProgressZw2 Proofs.TcpProgressZw3 Proofs.TcpProgressZwWitness.
 From SV Require Import Props.C02liveZw.
 
 Check (C02live_once_runb_iff : forall Dt Da evs fa st,
@@ -21,3 +21,124 @@ Check (C02live_zero_window_starved_by_redelivery :
     (exists W', 8 <= W' <= TcpRecvWindow.p30 /\
                 tcp_window_end (net_sock st' SB) = seq_norm (tcp_window_start (net_sock st' SB) + W')) /\
     length (chan_to st' SB) = length (chan_to st SB)).
+
+Check (C02live_reply_carries_current_window : forall cx s ip r s' rep tags,
+  tcp_process cx s ip r = Ok (s', rep, tags) -> wsh s' rep).
+
+Check (C02live_transmit_carries_current_window : forall cx s ok s' res tags t,
+  s_state s = Established -> s_state s' = Established ->
+  s_tuple s = Some t -> tu_local_addr t = cx_addr cx ->
+  tcp_dispatch cx s ok = Ok (s', res, tags) ->
+  forall p, res = DSent p -> r_window_len (snd p) = tcp_scaled_window s').
+
+Check (C02live_sender_learns_advertised_window : forall cx s ip r s' reply tags,
+  ctx_ok cx -> seg_ok r -> tcp_live_inv s ->
+  s_state s = Established -> s_state s' = Established ->
+  rb_len (s_tx_buffer s) < 2 ^ 31 ->
+  tcp_process cx s ip r = Ok (s', reply, tags) ->
+  core_eq s s' \/
+  (r_control r <> CSyn /\ s_remote_win_len s' = shl (r_window_len r) (win_scale_of s r))).
+
+Check (C02live_poll_at_not_after_armed_timer : forall cx s,
+  s_tuple s <> None ->
+  match tcp_poll_at cx s with
+  | Ok PNow => True
+  | Ok (PTime t) => match s_timer s with
+                    | TRetransmit e | TZeroWindowProbe e _ => t <= e
+                    | TFastRetransmit => False
+                    | _ => True
+                    end
+  | Ok PIngress => match s_timer s with
+                   | TRetransmit _ | TZeroWindowProbe _ _ | TFastRetransmit => False
+                   | _ => True
+                   end
+  | _ => True
+  end).
+
+Check (C02live_zero_window_probe_timer_kept : forall cx s t ok s' res tags e d,
+  tcp_live_inv s -> s_state s = Established -> s_timeout s = None ->
+  s_tuple s = Some t -> tu_local_addr t = cx_addr cx ->
+  s_remote_win_len s = 0 -> s_remote_last_seq s = s_local_seq_no s ->
+  s_timer s = TZeroWindowProbe e d -> cx_now cx < e ->
+  tcp_dispatch cx s ok = Ok (s', res, tags) ->
+  s_timer s' = TZeroWindowProbe e d /\ s_remote_win_len s' = 0 /\
+  forall p, res = DSent p -> repr_segment_len (snd p) = 0).
+
+Check (C02live_zero_window_rto_arms_probe : forall cx s t ok s' res tags e,
+  tcp_live_inv s -> s_state s = Established -> s_timeout s = None ->
+  s_tuple s = Some t -> tu_local_addr t = cx_addr cx ->
+  s_remote_win_len s = 0 -> 0 < rb_len (s_tx_buffer s) ->
+  s_timer s = TRetransmit e -> e <= cx_now cx ->
+  tcp_dispatch cx s ok = Ok (s', res, tags) ->
+  (exists e' d', s_timer s' = TZeroWindowProbe e' d' /\ cx_now cx < e' <= cx_now cx + max_rto_us) /\
+  s_remote_win_len s' = 0 /\ forall p, res = DSent p -> repr_segment_len (snd p) = 0).
+
+Check (C02live_reliable_leads : forall (Dt Da : Z) (R : net -> Prop) (J Q : fair_aux -> net -> Prop) (x : side) (T : Z),
+  (forall fa st, J fa st -> net_now st x <= T) ->
+  (forall fa st ev st', R st -> R st' -> J fa st -> fair_ev fa st ev -> once_ev fa ev -> net_step st ev = Ok st' ->
+     Q (fa_after Dt Da fa ev st') st' \/ J (fa_after Dt Da fa ev st') st') ->
+  forall evs fa st st',
+    J fa st -> run_all R st evs -> fair_run Dt Da fa st evs -> once_run Dt Da fa st evs ->
+    net_run st evs = Ok st' -> T < net_now st' x ->
+    exists pre post fa1 st1,
+      evs = pre ++ post /\ net_run st pre = Ok st1 /\ net_run st1 post = Ok st' /\
+      run_all R st1 post /\ fair_run Dt Da fa1 st1 post /\ once_run Dt Da fa1 st1 post /\ Q fa1 st1 /\
+      exists fa0 st0 ev0, J fa0 st0 /\ R st0 /\ fair_ev fa0 st0 ev0 /\ net_step st0 ev0 = Ok st1 /\
+                          fa1 = fa_after Dt Da fa0 ev0 st1).
+
+Check (C02live_zero_window_deadline_step : forall x Dt Da u0 d0 dk T1 fa st ev st',
+  0 <= Dt -> 0 <= Da ->
+  zsafe x st -> zsafe x st' -> Z1 x Da u0 d0 dk T1 fa st -> fair_ev fa st ev -> once_ev fa ev -> net_step st ev = Ok st' ->
+  (Qz x u0 d0 st' \/ JR x Da d0 (T1 + dk + Da) (fa_after Dt Da fa ev st') st' \/
+   Z2 x Da u0 d0 dk (T1 + dk + Dt) (fa_after Dt Da fa ev st') st') \/
+  Z1 x Da u0 d0 dk T1 (fa_after Dt Da fa ev st') st').
+
+Check (C02live_zero_window_probe_in_flight_step : forall x Dt Da u0 d0 dk T2 fa st ev st',
+  0 <= Dt -> 0 <= Da ->
+  zsafe x st -> zsafe x st' -> Z2 x Da u0 d0 dk T2 fa st -> fair_ev fa st ev -> once_ev fa ev -> net_step st ev = Ok st' ->
+  (Qz x u0 d0 st' \/ JR x Da d0 (T2 + Da) (fa_after Dt Da fa ev st') st' \/
+   Z4 x Da u0 d0 dk (T2 - dk + Dt) (fa_after Dt Da fa ev st') st') \/
+  Z2 x Da u0 d0 dk T2 (fa_after Dt Da fa ev st') st').
+
+Check (C02live_zero_window_ack_in_flight_step : forall x Dt Da u0 d0 dk T4 fa st ev st',
+  0 <= Da ->
+  zsafe x st -> zsafe x st' -> Z4 x Da u0 d0 dk T4 fa st -> fair_ev fa st ev -> once_ev fa ev -> net_step st ev = Ok st' ->
+  (Qz x u0 d0 st' \/ JR x Da d0 (T4 + dk + Da) (fa_after Dt Da fa ev st') st') \/
+  Z4 x Da u0 d0 dk T4 (fa_after Dt Da fa ev st') st').
+
+Check (C02live_zero_window_eventually_reopens : forall x Dt Da evs fa st st' u0 d0,
+  0 <= Dt -> 0 <= Da ->
+  NI st -> opts_ok st -> dl_sync Da fa st ->
+  run_all (zsafe x) st evs -> fair_run Dt Da fa st evs -> once_run Dt Da fa st evs -> net_run st evs = Ok st' ->
+  0 < txl x st -> s_remote_win_len (net_sock st x) = 0 -> wpos x fa st ->
+  una_off (net_get st x) = u0 -> read_off (net_get st (side_other x)) = d0 ->
+  net_now st x + 2 * max_rto_us + 2 * Dt + Da < net_now st' x ->
+  exists pre post st1, evs = pre ++ post /\ net_run st pre = Ok st1 /\ net_run st1 post = Ok st' /\
+                       Qz x u0 d0 st1).
+
+Check (C02live_zero_window_safety_discharged : forall x Dack evs st st',
+  reach st -> NI st -> opts_ok st -> reg x Dack st ->
+  Forall (script_ev x) evs -> net_run st evs = Ok st' ->
+  TcpNetInv.small st' -> wr_small x st' -> run_all (zextra x) st evs ->
+  run_all (zsafe x) st evs).
+
+Check (C02live_zero_window_reopens_from_established : forall x Dt Da Dack evs fa st st',
+  reach st -> reg x Dack st -> opts_ok st ->
+  0 <= Dt -> 0 <= Da -> dl_sync Da fa st ->
+  fair_run Dt Da fa st evs -> once_run Dt Da fa st evs ->
+  Forall (app_ev x) evs -> net_run st evs = Ok st' ->
+  (forall z, l_len (ep_written (net_get st' z)) < 2 ^ 30) ->
+  run_all (zextra x) st evs ->
+  0 < txl x st -> s_remote_win_len (net_sock st x) = 0 -> wpos x fa st ->
+  net_now st x + 2 * max_rto_us + 2 * Dt + Da < net_now st' x ->
+  exists pre post st1, evs = pre ++ post /\ net_run st pre = Ok st1 /\ net_run st1 post = Ok st' /\
+                       Qz x (una_off (net_get st x)) (read_off (net_get st (side_other x))) st1).
+
+Check (C02live_zero_window_reopens_applies :
+  exists st0 st st',
+    net_init zcfg_a zcfg_b = Ok st0 /\ net_run st0 zww_prefix = Ok st /\ net_run st zww_suffix = Ok st' /\
+    reach st /\ reg SA 10000 st /\ reliable_schedule 5000 5000 st zww_suffix /\ Forall (app_ev SA) zww_suffix /\
+    run_all (zextra SA) st zww_suffix /\
+    0 < txl SA st /\ s_remote_win_len (net_sock st SA) = 0 /\
+    exists p1 p2 st1, zww_suffix = p1 ++ p2 /\ net_run st p1 = Ok st1 /\ net_run st1 p2 = Ok st' /\
+                      Qz SA (una_off (net_get st SA)) (read_off (net_get st SB)) st1).
